@@ -119,6 +119,15 @@ pub fn run_world(args: &Args) -> (u64, u64) {
             c.world_server(exp, user, key, proof, cs.wrapping_sub(1), true, Some(*sseed));
             c.world_server(exp, user, key, proof, cs, true, Some(sseed.wrapping_add(1)));
             c.world_server(exp, user, key, proof, cs, true, Some(sseed.wrapping_sub(1)));
+            // the same proof under RELATED seeds: bytes swapped, rotated, complemented, bits reversed (either seed)
+            for f in [u32::swap_bytes as fn(u32) -> u32, |x| x.rotate_left(8), |x| x.rotate_left(16), |x| !x, u32::reverse_bits, |x| x ^ 0x8000_0000] {
+                if f(cs) != cs {
+                    c.world_server(exp, user, key, proof, f(cs), true, Some(*sseed));
+                }
+                if f(*sseed) != *sseed {
+                    c.world_server(exp, user, key, proof, cs, true, Some(f(*sseed)));
+                }
+            }
             // seeds swapped (accepted only when they are equal)
             c.world_server(exp, user, key, proof, *sseed, true, Some(cs));
             // lower-case spelling of the same user is the same normalised name
@@ -366,6 +375,25 @@ pub fn run_stream(args: &Args) -> (u64, u64) {
                 c.split(&mut cl);
                 c.split(&mut sv);
             }
+            // an older snapshot refreshed with clone_from (same key, other carried state), and an object of ANOTHER
+            // key overwritten with clone_from: both must then behave as the source does
+            if step == 5 || step == 11 || step == 19 {
+                let mut snap = c.clone_conn(&cl);
+                stream_dir(&mut c, &mut rng, &mut cl, &mut sv, 5 + step, false);
+                c.clone_from_conn(&mut snap, &cl);
+                c.drop_conn(&cl);
+                cl = snap;
+                let mut other = c.clone_conn(&cl2);
+                if cl.is_whole() != other.is_whole() { c.split(&mut other); }
+                if cl.is_whole() == other.is_whole() {
+                    c.clone_from_conn(&mut other, &cl);
+                    let mut w = vec![0u8; 7];
+                    rng.fill_bytes(&mut w);
+                    c.call(&mut other, "enc", &w, "half");
+                    c.call(&mut other, "dec", &w, "half");
+                }
+                c.drop_conn(&other);
+            }
             if step == 13 || step == 21 {
                 if exp == "vanilla" {
                     c.unsplit(&mut cl, None);
@@ -374,6 +402,29 @@ pub fn run_stream(args: &Args) -> (u64, u64) {
                     let k = c.clone_conn(&cl);
                     c.drop_conn(&cl);
                     cl = k;
+                }
+            }
+        }
+    }
+    // consecutive constructions (same thread) for keys that differ in exactly TWO bits, at every bit distance 1..319:
+    // whatever identifies a key internally must depend on all of it, not on a fold in which two changes cancel
+    {
+        let basebits: Vec<usize> = if thorough { vec![0, 3, 64 + 7] } else { vec![(args.seed as usize * 5) % 8] };
+        for b0 in basebits {
+            let k0 = rnd40(&mut rng);
+            for d in 1..320usize {
+                if (b0 + d) >= 320 { break; }
+                if d % 40 == 1 { c.reset("stream-keypairs"); }
+                let mut k1 = k0;
+                k1[b0 / 8] ^= 1 << (b0 % 8);
+                k1[(b0 + d) / 8] ^= 1 << ((b0 + d) % 8);
+                for key in [k0, k1] {
+                    let Some((mut cl, mut sv)) = pair(&mut c, exp, "KEYPAIR", key, None, 7) else { continue };
+                    let w = [0x11u8, 0x22, 0x33, 0x44, 0x55, 0x66];
+                    if let Some(o) = c.call(&mut cl, "enc", &w, "half") { c.call(&mut sv, "dec", &o, "half"); }
+                    if let Some(o) = c.call(&mut sv, "enc", &w, "half") { c.call(&mut cl, "dec", &o, "half"); }
+                    c.drop_conn(&cl);
+                    c.drop_conn(&sv);
                 }
             }
         }
@@ -529,7 +580,15 @@ fn wrath_deliver(c: &mut C, rng: &mut StdRng, cl: &mut Conn, bytes: &[u8], path:
                         c.drop_conn(&k);
                         c.sent = if sent.0 <= 0x7F_FFFF { Some((sent.0, sent.1 as u32)) } else { None };
                     }
-                    c.wrath_complete(cl, bytes[4], via);
+                    // sometimes the object is SPLIT between the two steps: the decrypter half completes the header
+                    static TURN: std::sync::atomic::AtomicUsize = std::sync::atomic::AtomicUsize::new(0);
+                    let turn = TURN.fetch_add(1, std::sync::atomic::Ordering::Relaxed);
+                    if (path % 5 == 2 || turn % 4 == 1) && cl.is_whole() {
+                        c.split(cl);
+                        c.wrath_complete(cl, bytes[4], "half");
+                    } else {
+                        c.wrath_complete(cl, bytes[4], via);
+                    }
                 }
             }
         }
@@ -596,6 +655,33 @@ pub fn run_wrathhdr(args: &Args) -> (u64, u64) {
             let Some(bytes) = c.enc_server_hdr(&mut sv, size, op, "combined") else { break };
             let p = rng.gen();
             wrath_deliver(&mut c, &mut rng, &mut cl, &bytes, p, (size, op));
+        }
+    }
+    // consecutive headers with the SAME opcode whose sizes are related: equal modulo 2^16 / 2^15 / 2^8, the previous
+    // size again, short and long forms alternating - each header is encoded from its own size, nothing is reused
+    {
+        c.reset("wrathhdr-related-sizes");
+        if let Some((mut cl, mut sv)) = pair(&mut c, "wrath", "RELSIZE", rnd40(&mut rng), None, 31) {
+            let bases: Vec<u32> = if thorough { vec![5, 0x7FFF, 0x1234, 0x00FF, 0x8000, 0x0100, 0x4000, 0x7F00] } else { vec![5, 0x7FFF, 0x1234] };
+            for (bi, base) in bases.iter().enumerate() {
+                let op = OPCODES[bi % OPCODES.len()];
+                for size in [*base, base + 0x1_0000, *base, base ^ 0x8000, base + 0x2_0000, base & 0xFF, base + 0x7F_0000, *base, (base + 0x100) & 0x7F_FFFF, base + 0x1_0000] {
+                    let via = if size % 2 == 0 { "combined" } else { "half" };
+                    let Some(bytes) = c.enc_server_hdr(&mut sv, size, op, via) else { break };
+                    wrath_deliver(&mut c, &mut rng, &mut cl, &bytes, bi as u32, (size, op));
+                }
+                // the same through the Write wrapper
+                for size in [*base, base + 0x1_0000, *base] {
+                    let before = sv.enc_clone();
+                    let wire = wire_server("wrath", size, op);
+                    c.write_hdr(&mut sv, "server", size, op as u32, &[Step::Accept(2), Step::Accept(8)], "half");
+                    if let Some(mut e) = before {
+                        let mut bb = wire.clone();
+                        e.encrypt(&mut bb);
+                        wrath_deliver(&mut c, &mut rng, &mut cl, &bb, 0, (size, op));
+                    }
+                }
+            }
         }
     }
     // several connections served by ONE thread, their long headers interleaved at the two-step point (A's first four
@@ -932,6 +1018,39 @@ pub fn run_hdrio(args: &Args) -> (u64, u64) {
             }
         }
     }
+    // sequences on ONE object per expansion: related sizes with the same opcode and related opcodes with the same size,
+    // through the typed helper and the Write wrapper alternately, each decoded by the peer - every header is laid out
+    // from its own arguments, nothing carried over from the previous call
+    for exp in EXPS {
+        c.reset("hdrio-sequences");
+        let Some((mut cl, mut sv)) = pair(&mut c, exp, "SEQ", rnd40(&mut rng), None, 11) else { continue };
+        let wide = exp == "wrath";
+        let sizes: Vec<u32> = if wide { vec![5, 0x1_0005, 5, 0x8005, 0x2_0005, 0x7F_0005, 0x0105, 5, 0x7FFF, 0x1_7FFF, 0x8000, 0x1_8000] }
+                              else { vec![5, 0x8005, 5, 0x0105, 0x0500, 0x7FFF, 0xFFFF, 0x00FF, 0xFF00, 5] };
+        for (k, size) in sizes.iter().enumerate() {
+            for op in [0x1EEu16, 0x1EE, 0xEE01, 0x01EE ^ 0x100] {
+                let via = if k % 2 == 0 { "combined" } else { "half" };
+                let ct = if (k + op as usize) % 3 == 0 {
+                    let before = sv.enc_clone();
+                    c.write_hdr(&mut sv, "server", *size, op as u32, &[Step::Accept(1), Step::Accept(9)], via);
+                    before.map(|mut e| { let mut bb = wire_server(exp, *size, op); e.encrypt(&mut bb); bb })
+                } else {
+                    c.enc_server_hdr(&mut sv, *size, op, via)
+                };
+                if let Some(ct) = ct {
+                    c.sent = Some((*size, op as u32));
+                    c.read_hdr(&mut cl, "server", &[Step::Data(ct)], via);
+                }
+                let csize = (*size & 0xFFFF) as u16;
+                let op32 = (op as u32) << if k % 2 == 0 { 0 } else { 16 };
+                if let Some(h) = c.enc_client_hdr(&mut cl, csize, op32, via) {
+                    c.sent = Some((csize as u32, op32));
+                    c.read_hdr(&mut sv, "client", &[Step::Data(h)], via);
+                }
+                c.sent = None;
+            }
+        }
+    }
     let _ = ErrorKind::Other;
     c.tr.finish()
 }
@@ -1105,6 +1224,33 @@ pub fn run_halves(args: &Args) -> (u64, u64) {
         c.call(&mut a, "enc", &w, "combined");
         c.call(&mut a, "dec", &w, "combined");
         if i % 6 == 5 { c.reset("unsplit-samekey"); }
+    }
+    // clone_from between halves of DIFFERENT keys: the destination becomes the source (key included), for every expansion;
+    // a vanilla destination can then be re-joined with the source's decrypter
+    c.reset("clone-from");
+    for (i, exp) in EXPS.iter().cycle().take(if args.tier == "thorough" { 18 } else { 6 }).enumerate() {
+        let mut k2 = key;
+        k2[(i * 7) % 40] ^= 0x10;
+        let Some((mut a, _)) = pair(&mut c, exp, "CLONEFROM", key, None, 1) else { continue };
+        let Some((mut b2, _)) = pair(&mut c, exp, "CLONEFROM", k2, None, 1) else { continue };
+        let mut w = vec![0u8; 5 + i];
+        rng.fill_bytes(&mut w);
+        c.call(&mut a, "enc", &w, "combined");
+        c.call(&mut a, "dec", &w[..3], "combined");
+        c.call(&mut b2, "enc", &w[..2], "combined");
+        if i % 2 == 0 {
+            c.split(&mut a);
+            c.split(&mut b2);
+        }
+        c.clone_from_conn(&mut b2, &a);
+        c.call(&mut b2, "enc", &w, "half");
+        c.call(&mut b2, "dec", &w, "half");
+        c.call(&mut a, "enc", &w, "half");
+        if *exp == "vanilla" && i % 2 == 0 {
+            let State::Parts(_, De::V(d_a)) = a.st.clone() else { unreachable!() };
+            c.unsplit(&mut b2, Some((a.hd, d_a)));
+            c.call(&mut b2, "dec", &w, "combined");
+        }
     }
     // two-thread schedules: each thread owns one half; TLC's schedule is followed in lock-step
     fn assert_send<T: Send>() {}
@@ -1365,6 +1511,20 @@ pub fn run_hdradv(args: &Args) -> (u64, u64) {
             rng.fill_bytes(&mut big);
             c.call(&mut cl, "dec", &big, via);
             c.call(&mut sv, "dec", &big, via);
+            // a peer that keeps sending: more than 65 536 bytes through each decrypter (one large chunk, then headers) -
+            // counters of any width must not overflow into a panic
+            if round % 50 == 0 {
+                let mut huge = vec![0u8; 66_000];
+                rng.fill_bytes(&mut huge);
+                c.call(&mut cl, "dec", &huge, via);
+                c.call(&mut sv, "dec", &huge, via);
+                rng.fill_bytes(&mut g6);
+                c.dec_client_hdr(&mut sv, g6, via);
+                c.call(&mut cl, "dec", &huge[..9], via);
+                c.call(&mut cl, "enc", &huge, via);
+                c.call(&mut sv, "enc", &huge, via);
+                c.call(&mut sv, "enc", &huge[..5], via);
+            }
             // a peer that sends nothing: zero-length buffers through every raw entry point
             for d in ["dec", "enc"] {
                 c.call(&mut cl, d, &[], via);
